@@ -520,7 +520,14 @@ class Stmts:
         th = self.th
         ordinal = self.loop_ordinal(node)
         inv = self.loop_invariant(ordinal)
+        if getattr(self, 'loops_changed', False) and self.depth == 0:
+            inv = None
         assigned = self.assigned_names(node.body + [ast.Assign(targets=[node.target], value=ast.Constant(value=None))])
+        marker = None
+        if inv is None and self.depth == 0 and [n for n in assigned if not n.startswith('$')]:
+            why = ('the function no longer has the number of loops its invariants were written for' if getattr(self, 'loops_changed', False)
+                   else f'loop {ordinal} (line {node.lineno}) has no invariant')
+            marker = z3.Bool('needs_invariant!' + why)
         props = self.cur_props
         outs = []
         route = 'L2'
@@ -544,6 +551,8 @@ class Stmts:
         i = th.fresh('it', th.I)
         s = havoc_state('h')
         s.add(i >= 0, i < it.n)
+        if marker is not None:
+            s.add(marker)
         keep = it.keep(i, s) if it.keep is not None else None
         if inv is not None:
             s.add(self.eval_invariant(inv, i, s))
@@ -578,6 +587,8 @@ class Stmts:
         # 3. exit: all n elements processed
         s_exit = havoc_state('x')
         s_exit.add(it.n >= 0)
+        if marker is not None:
+            s_exit.add(marker)
         if inv is not None:
             s_exit.add(self.eval_invariant(inv, it.n, s_exit))
         outs.append(('fall', None, s_exit))
@@ -589,8 +600,8 @@ class Stmts:
         ordinal = self.loop_ordinal(node)
         inv = self.loop_invariant(ordinal)
         var = self.cur_contract.variants.get(ordinal) if self.cur_contract else None
-        if inv is None:
-            raise OutOfSubset('while loop without a sidecar invariant', node)
+        if inv is None or getattr(self, 'loops_changed', False):
+            raise OutOfSubset('while loop without a sidecar invariant (or the loops of the function changed)', node)
         assigned = self.assigned_names(node.body)
         props = self.cur_props
         outs = []
